@@ -156,17 +156,33 @@ pub fn hostile_doc(rng: &mut Rng, env: &WorkerEnv) -> (String, Vec<u8>) {
             ("reuse-recursion".into(), s.into_bytes())
         }
         8 => {
+            // use / reuse chains: a tail of n references whose base is a shape, or leads
+            // into a reference cycle of length L which the tail is not part of
             let n = d.min(500);
-            let mut s = String::from("<svg><rect id=\"u0\" wh=\"2\"/>");
+            let kind = if rng.chance(1, 3) { "reuse" } else { "use" };
+            let cycle = *rng.pick(&[0usize, 0, 1, 2, 3, 5]);
+            let mut s = String::from("<svg>");
+            if cycle == 0 {
+                s.push_str("<rect id=\"u0\" wh=\"2\"/>");
+            } else {
+                // cycle c0 -> c1 -> ... -> c0; u0 points into it
+                for c in 0..cycle {
+                    s.push_str(&format!("<{kind} id=\"c{c}\" href=\"#c{}\"/>", (c + 1) % cycle));
+                }
+                s.push_str(&format!("<{kind} id=\"u0\" href=\"#c{}\"/>", rng.usize(cycle)));
+            }
+            let n = if cycle == 0 { n } else { n.min(6) };
             for k in 1..=n {
-                s.push_str(&format!("<use id=\"u{k}\" href=\"#u{}\"/>", k - 1));
+                s.push_str(&format!("<{kind} id=\"u{k}\" href=\"#u{}\"/>", k - 1));
             }
-            if rng.chance(1, 2) {
-                // and a cyclic pair
-                s.push_str("<use id=\"ca\" href=\"#cb\"/><use id=\"cb\" href=\"#ca\"/><rect xy=\"#ca|h\" wh=\"1\"/>");
+            match rng.below(4) {
+                0 => s.push_str(&format!("<rect xy=\"#u{n}|h\" wh=\"1\"/>")),
+                1 => s.push_str(&format!("<rect surround=\"#u{n}\"/>")),
+                2 => s.push_str(&format!("<use href=\"#u{n}\" xy=\"#u0|v\"/><line start=\"#u{n}\" end=\"#u0\"/>")),
+                _ => s.push_str(&format!("<rect wh=\"#u{n}\" x=\"#u0~x2\"/>")),
             }
-            s.push_str(&format!("<rect xy=\"#u{n}|h\" wh=\"1\"/></svg>"));
-            ("use-chain".into(), s.into_bytes())
+            s.push_str("</svg>");
+            (format!("{kind}-chain"), s.into_bytes())
         }
         9 | 10 => {
             let dstr = *rng.pick(&DICT[DICT.len() - 20..]);
